@@ -26,8 +26,10 @@ public:
   ASMJIT_INLINE_NODEBUG explicit CodeWriter(BaseAssembler* a) noexcept
     : _cursor(a->_buffer_ptr) {}
 
+  //! \note Not `noexcept` - a failure is reported through `BaseEmitter::report_error()`, which calls the attached
+  //! `ErrorHandler`, and `ErrorHandler::handle_error()` is allowed to throw.
   [[nodiscard]]
-  ASMJIT_INLINE Error ensure_space(BaseAssembler* a, size_t n) noexcept {
+  ASMJIT_INLINE Error ensure_space(BaseAssembler* a, size_t n) {
     size_t remaining_space = (size_t)(a->_buffer_end - _cursor);
     if (ASMJIT_UNLIKELY(remaining_space < n)) {
       CodeBuffer& buffer = a->_section->_buffer;
